@@ -4,8 +4,8 @@
 From Coq Require Import ZArith List Bool String Lia.
 From Hera.Lib Require Import Py.
 From Hera.Gen Require Import Utils Ops Tables Convert.
-From Hera.Model Require Import OpRep Preproc.
-From Hera.Proofs Require Import C04_Oplen C04_Layout C08_Safe C08_Symtab.
+From Hera.Model Require Import OpRep InstrOf Bitvec Preproc.
+From Hera.Proofs Require Import C04_Oplen C04_Layout C04_Bounds C08_Safe C08_Symtab.
 Import ListNotations.
 Open Scope Z_scope.
 
@@ -49,4 +49,106 @@ Proof.
     destruct (typecheck_fold_clean c ops _ H) as [H1 _]. cbn [tc_msgs] in H1.
     rewrite has_errors_app in H1. apply orb_false_iff in H1. exact (proj1 H1). }
   exact (typecheck_symtab_stable c ops st msgs N R T a b E).
+Qed.
+
+(* ---- what is accepted against a smaller table is accepted against a larger one --------------------------- *)
+Lemma check_arg_ext p t st st' : ext st st' -> check_arg p t st = None -> check_arg p t st' = None.
+Proof.
+  intros E. unfold check_arg, lift_str, check_register_or_label, check_in_range.
+  destruct p; try (intros H; exact H);
+    destruct (t_type t); try (intros H; exact H);
+    destruct (dict_get st (t_val t)) as [sv|] eqn:G; try discriminate;
+    rewrite (E _ _ G); intros H; exact H.
+Qed.
+
+Lemma check_args_ext ps ts st st' : ext st st' ->
+  Forall2 (fun p t => check_arg p t st = None) ps ts -> Forall2 (fun p t => check_arg p t st' = None) ps ts.
+Proof. intros E F. induction F; constructor; [eapply check_arg_ext; eassumption|assumption]. Qed.
+
+Lemma op_tc_default o st ao : has_errors (op_typecheck o st ao) = false -> has_errors (default_typecheck o st) = false.
+Proof.
+  intros H. unfold op_typecheck in H.
+  destruct (o_cls o); try exact H;
+    repeat (rewrite has_errors_app in H; apply orb_false_iff in H as [H ?]); try exact H.
+  destruct (has_errors (default_typecheck o st)) eqn:B; [congruence|reflexivity].
+Qed.
+
+(* type checking never binds a code label: those of the final table are those of the label pass *)
+Lemma tc_fold_labels c ops : forall t k v,
+  dict_get (tc_st (fold_left (typecheck_step c) ops t)) k = Some (SLabel v) -> dict_get (tc_st t) k = Some (SLabel v).
+Proof.
+  induction ops as [|o r IH]; intros t k v H; cbn [fold_left] in H; [exact H|].
+  apply IH in H. unfold typecheck_step in H. cbv zeta in H. cbn [tc_st] in H.
+  destruct (o_cls o); try exact H.
+  destruct (o_args o) as [|a1 l1]; try exact H.
+  destruct a1 as [|b1|z1|name|f1]; try exact H.
+  destruct l1 as [|a2 l2]; try exact H.
+  destruct a2 as [|b2|w|other|f2]; try exact H; (destruct l2 as [|a3 l3]; try exact H).
+  - apply get_set_cases in H as [H|H]; [discriminate H|exact H].
+  - destruct (dict_get (tc_st t) (PS other)) as [[w|w|w]|]; try exact H.
+    apply get_set_cases in H as [H|H]; [discriminate H|exact H].
+Qed.
+
+Lemma accepted_labels_ok c ops st msgs : typecheck c ops = (st, msgs) -> has_errors msgs = false -> st_wf_labels st.
+Proof.
+  unfold typecheck. destruct (get_labels c ops) as [st0 m1] eqn:G. intros T H. injection T as <- <-.
+  destruct (typecheck_fold_clean c ops _ H) as [H1 _]. cbn [tc_msgs] in H1.
+  rewrite has_errors_app in H1. apply orb_false_iff in H1 as [_ H1].
+  intros k v E. apply tc_fold_labels in E. cbn [tc_st] in E.
+  pose proof (labels_in_range c ops st0 m1 G H1 k v E). lia.
+Qed.
+
+Lemma check_arglist_ext st st' : ext st st' -> forall ps ts i,
+  has_errors (check_arglist ps ts st i) = false -> has_errors (check_arglist ps ts st' i) = false.
+Proof.
+  intros E. induction ps as [|p ps IH]; intros [|t ts] i H; cbn [check_arglist] in *; try reflexivity.
+  destruct (check_arg p t st) eqn:C.
+  - destruct a; cbn in H; discriminate H.
+  - rewrite (check_arg_ext p t st st' E C). apply IH, H.
+Qed.
+
+Lemma default_tc_ext o st st' : ext st st' ->
+  has_errors (default_typecheck o st) = false -> has_errors (default_typecheck o st') = false.
+Proof.
+  intros E. unfold default_typecheck. rewrite !has_errors_app. intros H. apply orb_false_iff in H as [H1 H2].
+  rewrite H1. cbn [orb]. eapply check_arglist_ext; eassumption.
+Qed.
+
+From Hera.Proofs Require Import C09_Checker.
+
+(* the k-th operation of an accepted program passed its own type check, against the table of that moment *)
+Lemma accepted_at_position c ops st msgs a o b :
+  typecheck c ops = (st, msgs) -> has_errors msgs = false -> ops = a ++ o :: b ->
+  has_errors (default_typecheck o (tc_st (fold_left (typecheck_step c) a
+     (mktc (fst (get_labels c ops)) false (check_redecl ops [] ++ snd (get_labels c ops)))))) = false.
+Proof.
+  intros T H E. unfold typecheck in T. destruct (get_labels c ops) as [st0 m1]. cbn [fst snd]. injection T as _ <-.
+  set (t0 := mktc st0 false (check_redecl ops [] ++ m1)) in *.
+  rewrite E, fold_left_app in H.
+  apply (proj1 (fold_clean c (o :: b) _)) in H as [_ S]. cbn [steps_clean] in S. destruct S as [S _].
+  apply typecheck_step_exact in S as (S & _). exact (op_tc_default _ _ _ S).
+Qed.
+
+(* THE PROGRAM-LEVEL THEOREM.  In a program the checker accepts, every operation that expands to machine
+   instructions is substituted from the final symbol table without a missing symbol, expands without raising,
+   and every instruction it expands to has operands that fit their machine fields.  (Relative branches whose
+   operand names a label take the other path of convert_ops: C08_rel_label_valid.) *)
+Theorem accepted_program_op_valid c ops st msgs a o b :
+  Forall (fun o => Forall tok_wf (o_toks o)) ops ->
+  typecheck c ops = (st, msgs) -> has_errors msgs = false -> ops = a ++ o :: b ->
+  expands_to_instructions (o_cls o) = true ->
+  rel_symbol_is_constant (o_cls o) (o_toks o) st ->
+  exists ts' l, subst_tokens (o_toks o) st = Ok ts' /\ convert_full (mkop (o_cls o) ts') = Ok l /\ Forall is_valid_real l.
+Proof.
+  intros W T H E X R.
+  pose proof (accepted_at_position c ops st msgs a o b T H E) as A.
+  pose proof (accepted_symtab_stable c ops st msgs W T H a (o :: b) E) as S.
+  pose proof (default_tc_ext o _ st S A) as A'.
+  pose proof (accepted_labels_ok c ops st msgs T H) as L.
+  assert (Wo : Forall tok_wf (o_toks o)).
+  { rewrite E in W. apply Forall_app in W as [_ W]. inversion W; assumption. }
+  destruct o as [cls ts]. cbn [o_cls o_toks] in *.
+  destruct (accepted_op_converts cls ts st X Wo L A') as (ts' & l & E1 & E2).
+  exists ts', l. split; [exact E1|]. split; [exact E2|].
+  exact (accepted_op_valid cls ts st ts' l X Wo L A' R E1 E2).
 Qed.
